@@ -44,6 +44,11 @@ pub fn beat() {
     MY.with(|s| s.beat_ms.store(now_ms(), Ordering::Relaxed));
 }
 
+/// What the calling worker declared and whether it is being watched.
+pub fn current() -> (String, bool) {
+    MY.with(|s| (s.desc.lock().unwrap().clone(), s.active.load(Ordering::Relaxed) == 1))
+}
+
 pub fn idle() {
     MY.with(|s| s.active.store(0, Ordering::Relaxed));
 }
